@@ -587,6 +587,94 @@ def _options_eval(prog, f):
     return ""
 
 
+ARGV_TABLE = [
+    # (argv, expected members of the arguments mapping)
+    (["s.json"], {"schema": "s.json", "instances": None, "output": "plain", "base_uri": None, "validator": None}),
+    (["-i", "a.json", "s.json"], {"schema": "s.json", "instances": ["a.json"]}),
+    (["-i", "a.json", "--instance", "b.json", "-i", "a.json", "s.json"], {"instances": ["a.json", "b.json", "a.json"]}),
+    (["-i", "@a.json", "s.json"], {"instances": ["@a.json"], "schema": "s.json"}),
+    (["-i", "a.json", "@s.json"], {"instances": ["a.json"], "schema": "@s.json"}),
+    (["-i", "+a.json", "-i", "a b.json", "-i", "", "-i", "dir/../a.json", "s.json"], {"instances": ["+a.json", "a b.json", "", "dir/../a.json"]}),
+    (["--error-format", "@{error.message}", "s.json"], {"error_format": "@{error.message}", "output": "plain"}),
+    (["-F", "{error.message}\n", "-o", "plain", "s.json"], {"error_format": "{error.message}\n"}),
+    (["--error-format=", "s.json"], {"error_format": ""}),
+    (["--output", "pretty", "s.json"], {"output": "pretty", "error_format": None}),
+    (["--base-uri", "http://x/y/", "s.json"], {"base_uri": "http://x/y/"}),
+    (["--base-uri", "@base", "s.json"], {"base_uri": "@base"}),
+    (["s.json", "-i", "a.json"], {"schema": "s.json", "instances": ["a.json"]}),
+    (["--", "-odd-name.json"], {"schema": "-odd-name.json"}),
+]
+
+
+def _parser_eval(prog, f):
+    """The module-level argument parser, built by executing cli.py's own `parser = ...` / `parser.add_argument(...)` statements in
+    sa/tokeval.py against the real argparse, then parse_args() on a table of command lines: every value must arrive in the arguments
+    mapping as it was written (a word starting with '@', '+', a space, an empty string, `dir/../x`), in order, duplicates kept.
+    -> '' | difference | None (outside the fragment)."""
+    import argparse
+    from ..tokeval import Ev, Undecided, PyRaise, _ModScope
+    mod = prog.mod("cli")
+    try:
+        for argv, want in ARGV_TABLE:
+            ev = Ev(prog, fuel=20000)
+            ev.ext["argparse"] = argparse
+            ev.preset("__init__", "__version__", "0.0")
+            env = {}
+            built = False
+            for st in mod.tree.body:
+                if isinstance(st, ast.Assign) and len(st.targets) == 1 and isinstance(st.targets[0], ast.Name) and st.targets[0].id == "parser":
+                    ev.block([st], env, _ModScope(mod))
+                    built = True
+                elif built and isinstance(st, ast.Expr) and isinstance(st.value, ast.Call) and isinstance(st.value.func, ast.Attribute) \
+                        and isinstance(st.value.func.value, ast.Name) and st.value.func.value.id == "parser":
+                    ev.block([st], env, _ModScope(mod))
+            p = env.get("parser")
+            if not isinstance(p, argparse.ArgumentParser):
+                return None
+            msgs = []
+
+            def error(message, msgs=msgs):
+                msgs.append(message)
+                raise PyRaise("SystemExit", message)
+            p.error = error
+            p.exit = lambda status=0, message=None: error(message or "exit %s" % status)
+            ev.preset("cli", "parser", p)
+            try:
+                got = ev.call_func(f, [list(argv)], {})
+            except PyRaise as pr:
+                return "the command line %r is refused (%s: %s); every word of it is an ordinary value" % (argv, pr.name, (msgs or [pr.msg])[0])
+            except SystemExit:
+                return "the command line %r makes the parser exit" % (argv,)
+            if not isinstance(got, dict):
+                return "parse_args(%r) returns %r, not the arguments mapping" % (argv, got)
+            for k, v in want.items():
+                if got.get(k) != v:
+                    return "the command line %r gives %s=%r; as written it is %r" % (argv, k, got.get(k), v)
+    except Undecided:
+        return None
+    except PyRaise as pr:
+        return "building the parser raises %s (%s)" % (pr.name, pr.msg)
+    return ""
+
+
+def rule_argv(ctx, rid="R19.10"):
+    prog = ctx.prog
+    f = prog.func("cli.parse_args")
+    r = ctx.rule(rid, "every value on the command line reaches run() as written (instances in order, duplicates kept; words starting with '@', '+', ' ' are values)", floor=1)
+    try:
+        sem = _parser_eval(prog, f)
+    except RecursionError:
+        sem = None
+    if sem is None:
+        r.ok(site(f), "NOT DECIDED: the parser's construction is outside the evaluated fragment")
+        r.note(site(f), "%s not decided" % rid)
+    elif sem == "":
+        r.ok(site(f), "%d command lines parsed by the module's own parser (built inside the interpreter against argparse): every value arrives as written" % len(ARGV_TABLE))
+    else:
+        r.fail("%s|argv" % f.qual, site(f), sem)
+    return r
+
+
 def rule_options(ctx, rid="R19.6"):
     prog = ctx.prog
     f = prog.func("cli.parse_args")
@@ -713,6 +801,7 @@ def run(ctx):
         # below remain the fallback for code outside the evaluated fragment
         rule_cli_table(ctx, sem)
         rule_options(ctx)
+        rule_argv(ctx)
         return
     if sem is not None and "raises" in sem:
         # a command line of the table on which run() does not return at all: that is a finding of its own, whatever the CFG rules
@@ -734,6 +823,7 @@ def _structural(ctx):
     rule_validate_instance(ctx)
     rule_streams(ctx)
     rule_options(ctx)
+    rule_argv(ctx)
     rule_parse_failures(ctx)
     rule_validator_built_once(ctx)
     # R19.9: an explicit --validator always wins (the CLI half of C20's R20.3)
